@@ -110,6 +110,7 @@ class ParallelModel(ConfigurableModel):
 
         # Apply aggregator if provided
         if self.aggregator:
-            # Convert dictionary of results to a list of values for the aggregator
-            return self.aggregator(list(results.values()))
+            # Hand results to the aggregator in declared step order (the dictionary is filled
+            # in completion order, which depends on thread timing)
+            return self.aggregator([results[name] for name, _ in self.step_configs])
         return results
